@@ -747,6 +747,12 @@ func ruleSplitFunc(p *Prog, l *Ledger, tier string) {
 					l.Undecide(rule, FnName(sf), l.Key(rule, FnName(sf), "splitfunc", "stateful"), p.Pos(where.Pos()), FnName(sf)+" keeps state between calls (store at "+p.Pos(where.Pos())+"): whether every token it delivers and every request for more data is right then depends on the sequence of calls bufio.Scanner makes, which the rule does not model")
 					continue
 				}
+				// the pending data handed to another function (a standard split function the closure delegates to, a
+				// prefix test on what follows an index): what that function decides is not part of the path analysis
+				if c2 := splitHandsDataOn(sf, sf.Params[off]); c2 != nil {
+					l.Undecide(rule, FnName(sf), l.Key(rule, FnName(sf), "splitfunc", "delegates"), p.Pos(c2.Pos()), FnName(sf)+" hands the pending data to "+calleeShort(&c2.Call)+" ("+p.Pos(c2.Pos())+"): whether a line break cut between two reads is still one line break then depends on what that function does with a carriage return that is the last byte so far, which the rule does not model")
+					continue
+				}
 				a := &splitAnalysis{p: p, fn: sf, data: sf.Params[off], atEOF: sf.Params[1+off]}
 				a.run(l, rule)
 			}
@@ -850,6 +856,38 @@ func splitKeepsState(sf *ssa.Function) ssa.Instruction {
 						return st
 					}
 				}
+			}
+		}
+	}
+	return nil
+}
+
+// splitHandsDataOn: a call, other than an index search over the whole pending data, that receives the pending data or a
+// part of it.
+func splitHandsDataOn(sf *ssa.Function, data *ssa.Parameter) *ssa.Call {
+	for _, b := range sf.Blocks {
+		for _, ins := range b.Instrs {
+			c, ok := ins.(*ssa.Call)
+			if !ok {
+				continue
+			}
+			if _, isB := c.Call.Value.(*ssa.Builtin); isB {
+				continue
+			}
+			cn := calleeName(&c.Call)
+			for _, a := range c.Call.Args {
+				whole := a == ssa.Value(data)
+				part := false
+				if sl, ok := a.(*ssa.Slice); ok && sl.X == ssa.Value(data) {
+					part = true
+				}
+				if !whole && !part {
+					continue
+				}
+				if whole && (strings.HasPrefix(cn, "bytes.Index") || strings.HasPrefix(cn, "bytes.LastIndex") || cn == "bytes.HasPrefix") {
+					continue // modelled: a search over the whole pending data, a prefix test of it
+				}
+				return c
 			}
 		}
 	}
